@@ -40,7 +40,21 @@ func tablesMain(args []string) {
 	for i, v := range li.VerifHexDecodeMap() {
 		fmt.Fprintf(w, "H %d %d\n", i, v)
 	}
+	// reachability: what the package's own look-ups answer for every listed name, as listed and in lower case
+	for _, k := range keys {
+		fmt.Fprintf(w, "LK %s %d %d\n", hx(k), li.VerifLookupKeyword(k), li.VerifLookupKeyword(strings.ToLower(k)))
+	}
+	for _, t := range li.VerifBlackTags() {
+		fmt.Fprintf(w, "LT %s %d %d\n", hx(t), b2i(li.VerifIsBlackTag(t)), b2i(li.VerifIsBlackTag(strings.ToLower(t))))
+	}
+	for _, a := range li.VerifBlacks() {
+		fmt.Fprintf(w, "LA %s %d %d\n", hx(a.Name), li.VerifIsBlackAttr(a.Name), li.VerifIsBlackAttr(strings.ToLower(a.Name)))
+	}
+	for _, a := range li.VerifBlackEvents() {
+		fmt.Fprintf(w, "LE %s %d %d\n", hx(a.Name), li.VerifIsBlackAttr("ON"+a.Name), li.VerifIsBlackAttr("on"+strings.ToLower(a.Name)))
+	}
 }
+
 
 // ---------------- C03: calibration of the attack grammar (run once, result committed) ----------------
 
